@@ -50,7 +50,7 @@ func holdsLockAt(fn *ssa.Function, in ssa.Instruction, mtx string) bool {
 func C15(p *ir.Program, r *report.R) {
 	c := C{p, r}
 	r.Floor = 50
-	r.Explain = "Decided: (admission) transactions enter the three offer lists only through addGoodTx/addPureUtxoTx/addSpecGoodTx, and every call of those is dominated by a successful state check (CheckTx(tx, StateCheck) == nil) of the same transaction; AddTx dispatches only after the cache accepted the hash (dedup) and the basic check passed; only ErrNonceTooHigh routes to the future queue; (maintenance) Update runs filterTxs, recheckTxs, recheckSpecTxs/recheckUtxoTxs, promoteExecutables in that order; every iteration of a recheck loop either keeps a transaction whose state check passed or removes it from its list; CommitBlock refreshes the check state and key-image set before Update, all under the mempool lock; (lockset) every access to the plain guarded fields (futureTxs, futureTxsCount, beats, height, notifiedTxsAvailable under proxyMtx; kImageCache under kImageMtx) happens with the mutex held in the accessing function or in every caller chain, Update being caller-locked; (order) the nonce queue hands out a gap-free run starting at the requested nonce and Forward drops exactly the nonces below the threshold; (caps) Reap waits for rechecks and respects the maxima; (check-state hygiene) a state check that rejects a transaction must not have mutated the shared check state before the rejection. NOT decided: content invariants of the pool over interleavings, executability of the reaped set against the real application, balance coverage."
+	r.Explain = "Decided: (admission) transactions enter the three offer lists only through addGoodTx/addPureUtxoTx/addSpecGoodTx, and every call of those is dominated by a successful state check (CheckTx(tx, StateCheck) == nil) of the same transaction; AddTx dispatches only after the cache accepted the hash (dedup) and the basic check passed; only ErrNonceTooHigh routes to the future queue; (maintenance) Update runs filterTxs, recheckTxs, recheckSpecTxs/recheckUtxoTxs, promoteExecutables in that order; every iteration of a recheck loop either keeps a transaction whose state check passed or removes it from its list; CommitBlock refreshes the check state and key-image set before Update, all under the mempool lock; (lockset) every access to the plain guarded fields (futureTxs, futureTxsCount, beats, height, notifiedTxsAvailable under proxyMtx; kImageCache under kImageMtx) happens with the mutex held in the accessing function or in every caller chain, Update being caller-locked; (order) the nonce queue hands out a gap-free run starting at the requested nonce and Forward drops exactly the nonces below the threshold; (caps) Reap waits for rechecks and respects the maxima; (check-state hygiene) a state check that rejects a transaction must not have mutated the shared check state before the rejection. ADDED after seeded-change testing: Update re-checks the offered lists on every path (recheckTxs always; recheckSpecTxs/recheckUtxoTxs skipped only for an empty list), also after an empty block. NOT decided: content invariants of the pool over interleavings, executability of the reaped set against the real application, balance coverage."
 	r.Trusted = []string{"clist.CList (internally locked list)", "container/heap"}
 
 	// ---- admission -------------------------------------------------------------------
@@ -110,6 +110,29 @@ func C15(p *ir.Program, r *report.R) {
 	{
 		up := p.Func("mempool", "Mempool.Update")
 		c.Order(memT+"Update", up, "mempool.Mempool.filterTxs", "mempool.Mempool.recheckTxs", "mempool.Mempool.promoteExecutables")
+		// The caller (CommitBlock) has just replaced the shared check state and cleared the key-image
+		// set: the pending transactions must be re-applied to it after EVERY block, also an empty one.
+		c.MustPass(memT+"Update", "recheck-on-every-path/recheckTxs", ir.Entry(up), ir.IsReturn, ir.CallMatcher("mempool.Mempool.recheckTxs"), nil, "every path through Update re-checks the offered account transactions")
+		for _, rc := range []struct{ call, size string }{{"mempool.Mempool.recheckSpecTxs", "mempool.Mempool.SpecGoodTxsSize(mem)"}, {"mempool.Mempool.recheckUtxoTxs", "mempool.Mempool.UTXOTxsSize(mem)"}} {
+			okAll := true
+			why := ""
+			for _, rt := range ir.Returns(up) {
+				found, _, tr := ir.FindPath(ir.PathQuery{From: ir.Entry(up), Target: func(in ssa.Instruction) bool { return in == ssa.Instruction(rt.Instr) }, Avoid: ir.CallMatcher(rc.call),
+					AvoidEdge: func(atoms []string) bool {
+						for _, a := range atoms {
+							if a == "le("+rc.size+",0)" || a == "eq("+rc.size+",0)" {
+								return true
+							}
+						}
+						return false
+					}})
+				if found {
+					okAll = false
+					why = fmt.Sprintf("return at %s reachable without it although the list may be non-empty, blocks %v", p.InstrPos(rt.Instr), tr)
+				}
+			}
+			r.Check("K2", memT+"Update/recheck-on-every-path/"+strings.TrimPrefix(rc.call, "mempool.Mempool."), p.Pos(up.Pos()), okAll, "skipped only when the list is empty: "+why)
+		}
 		for _, g := range []string{"mempool.Mempool.recheckSpecTxs", "mempool.Mempool.recheckUtxoTxs"} {
 			a, b, cc := firstCall(up, "mempool.Mempool.filterTxs"), firstCall(up, g), firstCall(up, "mempool.Mempool.promoteExecutables")
 			r.Check("K2", memT+"Update/order/filterTxs ≺ "+strings.TrimPrefix(g, "mempool.Mempool.")+" ≺ promoteExecutables", p.Pos(up.Pos()), a != nil && b != nil && cc != nil && notBefore(b, a) && notBefore(cc, b), "rechecks run after committed transactions were filtered and before promotion")
